@@ -313,6 +313,95 @@ func genC13(tier string, r *Rng, emit func(Case)) {
 		}
 		emitRoot(emit, r, fam, num, den, 70, thorough)
 	}
+	genC13Lists(tier, r, emit)
+}
+
+// NewNumberForTesting / NewFiniteNumber argument checks and NewNumber(g) over misbehaving generators.
+func genC13Lists(tier string, r *Rng, emit func(Case)) {
+	bad := []int{-1, 10, -7, 11, 255, 256, 263, -256, MaxInt, MinInt}
+	n := 500
+	if tier == "thorough" {
+		n = 8000
+	}
+	reads := func(L int) []toks {
+		ops := []toks{{"WS", "0", "0"}, {"RUN", "0", "A", itoa(L + 12)}}
+		for _, p := range []int{-1, 0, L - 1, L, L + 1, L + 100} {
+			ops = append(ops, toks{"AT", "0", itoa(p)})
+		}
+		return ops
+	}
+	mk := func(kind string, raw, rep []int, exp int, ops []toks) toks {
+		var t toks
+		t.s(kind)
+		t.ints(raw)
+		t.ints(rep)
+		t.i(exp)
+		t.i(len(ops))
+		for _, o := range ops {
+			t = append(t, o...)
+		}
+		return t
+	}
+	for i := 0; i < n; i++ {
+		exp := r.Pick([]int{-5, -1, 0, 1, 3, 20})
+		nf := r.Pick([]int{0, 0, 1, 2, 5, 30, 100, 101})
+		nr := r.Pick([]int{0, 0, 1, 2, 3, 7})
+		fixed := make([]int, nf)
+		for k := range fixed {
+			fixed[k] = r.Intn(10)
+		}
+		rep := make([]int, nr)
+		for k := range rep {
+			rep[k] = r.Intn(10)
+		}
+		all := nf + nr
+		switch r.Intn(6) {
+		case 0: // an invalid value at a random index
+			if all > 0 {
+				j := r.Intn(all)
+				if j < nf {
+					fixed[j] = r.Pick(bad)
+				} else {
+					rep[j-nf] = r.Pick(bad)
+				}
+			}
+		case 1: // leading zero
+			if nf > 0 {
+				fixed[0] = 0
+			} else if nr > 0 {
+				rep[0] = 0
+			}
+		case 2: // valid with non-zero lead
+			if nf > 0 && fixed[0] == 0 {
+				fixed[0] = 3
+			} else if nf == 0 && nr > 0 && rep[0] == 0 {
+				rep[0] = 4
+			}
+		}
+		emit(Case{Ver: "v3", Op: "Hist", Args: mk("T", fixed, rep, exp, reads(nf))})
+		// generator streams: a script that ends with a bad value and then resumes digits, or starts with 0 / a bad value
+		raw := append([]int{}, fixed...)
+		switch r.Intn(5) {
+		case 0:
+			raw = append(raw, r.Pick(bad))
+			raw = append(raw, 1, 2, 3)
+		case 1:
+			raw = append([]int{r.Pick(bad)}, raw...)
+		case 2:
+			raw = append([]int{0}, raw...)
+		}
+		emit(Case{Ver: "v3", Op: "Hist", Args: mk("G", raw, rep, exp, reads(len(raw)))})
+		if i%3 == 0 {
+			// v1/v2: the hook takes the source as it is; only -1 ends it
+			ok := make([]int, 0, len(fixed))
+			for _, d := range fixed {
+				if d >= 0 && d <= 9 {
+					ok = append(ok, d)
+				}
+			}
+			emit(Case{Ver: allVers[i%2], Op: "Hist", Args: mk("G", ok, nil, exp, reads(len(ok)))})
+		}
+	}
 }
 
 func init() {
@@ -324,5 +413,5 @@ func init() {
 	register("C01", genRoots(sqrtCtors, 2), ops)
 	register("C02", genRoots(cubeCtors, 3), ops)
 	register("C03", genC03, ops)
-	register("C13", genC13, map[string]runner{"FromBigRat": runRoot})
+	register("C13", genC13, map[string]runner{"FromBigRat": runRoot, "Hist": runHist})
 }
